@@ -126,6 +126,32 @@ SPECS = [
              rules=[(r'const std::size_t length = b\.size\(\);', 'const size_t length = vx_len;', 1),
                     (r'for \(auto c : b\)\s*\{\s*sink_\.push_back\(c\);\s*\}\s*end_value\(\);', 'VX_PAYLOAD(length);', 1)] + SINK_RULES),
 ]
+# ---- known finding F12 (known_findings.json): lengths above 2^32-1 have no MessagePack representation; the encoder neither
+# reports an error nor writes a header.  The same bodies are verified under the complementary precondition (the carve-out of the
+# main harnesses); the obligation below is expected to fail there and is reported as KNOWN-FINDING, any other failure is a violation.
+TOOLONG_C = [
+    ('requires', 'vx_sink_n == 0 && *ec_p == 0 && self->nesting_depth_ >= 0 && self->nesting_depth_ < self->max_nesting_depth_ && self->max_nesting_depth_ < INT_MAX && vx_depth < 100000 && vx_pushes == 0'),
+    ('requires', 'length > 0xffffffffull'),
+    ('assigns', 'vx_sink_n, __CPROVER_object_whole(vx_sink), *ec_p, self->nesting_depth_, vx_depth, vx_pushes, vx_top'),
+    ('ensures', '[C06][C08] F12: a container length above 2^32-1 is not representable in MessagePack and must be refused with an error (never a container without header)', '*ec_p != 0'),
+]
+TOOLONG_S = [
+    ('requires', 'vx_sink_n == 0 && vx_len > 0xffffffffull && vx_thrown == 0'),
+    ('assigns', 'vx_sink_n, __CPROVER_object_whole(vx_sink), vx_thrown'),
+    ('ensures', '[C06][C08] F12: a string or byte-string length above 2^32-1 is not representable in MessagePack and must be refused (never a body without header)', 'vx_thrown != 0'),
+]
+SPECS += [
+    visit('visit_begin_object_toolong', r'visit_begin_object\(std::size_t length, semantic_tag, const ser_context&, std::error_code& ec\) final',
+          'void visit_begin_object_toolong(struct msgpack_encoder* self, size_t length, int* ec_p)', TOOLONG_C),
+    visit('visit_begin_array_toolong', r'visit_begin_array\(std::size_t length, semantic_tag, const ser_context&, std::error_code& ec\) final',
+          'void visit_begin_array_toolong(struct msgpack_encoder* self, size_t length, int* ec_p)', TOOLONG_C),
+]
+_str = [x for x in SPECS if getattr(x, 'name', '') == 'write_string_head'][0]
+_bin = [x for x in SPECS if getattr(x, 'name', '') == 'write_bin_head'][0]
+SPECS += [
+    FuncSpec('write_string_head_toolong', E, _str.anchor, count=1, csig='void write_string_head_toolong(size_t vx_len)', contract=TOOLONG_S, rules=_str.rules),
+    FuncSpec('write_bin_head_toolong', E, _bin.anchor, count=1, csig='void write_bin_head_toolong(struct msgpack_encoder* self, size_t vx_len)', contract=TOOLONG_S, rules=_bin.rules),
+]
 GROUPS = {'binary': cs.binary_group(widths=(8, 16, 32, 64))}
 
 SITE_CHECKS = [
@@ -143,4 +169,8 @@ HARNESSES = [
     Harness('end_array', 'h_end_array', enforce='visit_end_array', method='LF', unwind=9, props=['C06', 'C08', 'C10']),
     Harness('str_head', 'h_str_head', enforce='write_string_head', method='LF', unwind=9, props=['C06', 'C08']),
     Harness('bin_head', 'h_bin_head', enforce='write_bin_head', method='LF', unwind=9, props=['C06', 'C08']),
+    Harness('begin_object_toolong', 'h_begin_object_toolong', enforce='visit_begin_object_toolong', method='LF', unwind=9, props=['C06', 'C08'], known='F12'),
+    Harness('begin_array_toolong', 'h_begin_array_toolong', enforce='visit_begin_array_toolong', method='LF', unwind=9, props=['C06', 'C08'], known='F12'),
+    Harness('str_head_toolong', 'h_str_head_toolong', enforce='write_string_head_toolong', method='LF', unwind=9, props=['C06', 'C08'], known='F12'),
+    Harness('bin_head_toolong', 'h_bin_head_toolong', enforce='write_bin_head_toolong', method='LF', unwind=9, props=['C06', 'C08'], known='F12'),
 ]
